@@ -78,7 +78,11 @@ impl Rasn {
             ASN1Type::ElsewhereDeclaredType(_) => self.generate_typealias(tld),
             ASN1Type::Choice(_) => self.generate_choice(tld),
             ASN1Type::OctetString(_) => self.generate_octet_string(tld),
-            ASN1Type::Time(_) => unimplemented!("rasn does not support TIME types yet!"),
+            ASN1Type::Time(_) => Err(GeneratorError {
+                kind: GeneratorErrorType::NotYetInplemented,
+                details: "rasn does not support TIME types yet!".into(),
+                top_level_declaration: None,
+            }),
             ASN1Type::Real(_) => Err(GeneratorError {
                 kind: GeneratorErrorType::NotYetInplemented,
                 details: "Real types are currently unsupported!".into(),
